@@ -23,6 +23,8 @@ var knownCases = []struct {
 	{findingGarbageLeak, Case{N: 2, SrvGC: true, Steps: []prog.Step{{Who: 0, Op: "undo"}, {Who: 1, Op: "trdel"}}}, 3},
 	{findingTextAttr, Case{N: 2, Steps: []prog.Step{{Who: 0, Op: "tedit", C: 1}, {Who: 0, Op: "tstyle", B: 1}, {Who: 0, Op: "undo"}}}, 3},
 	{"F6", Case{N: 2, Steps: []prog.Step{{Who: 0, Op: "replText"}, {Who: 0, Op: "replText"}, {Who: 0, Op: "undo"}}}, 3},
+	{findingMergeSplit, Case{N: 2, Steps: []prog.Step{{Who: 0, Op: "trmerge"}, {Who: 0, Op: "trsplit", B: 1}, {Who: 0, Op: "sync"}, {Who: 1, Op: "trtext", A: 1}}}, 3},
+	{findingArraySetGC, Case{N: 2, SrvGC: true, Steps: []prog.Step{{Who: 1, Op: "replArr"}, {Who: 1, Op: "aset"}, {Who: 1, Op: "sync"}, {Who: 0, Op: "sync"}, {Who: 0, Op: "snap"}, {Who: 1, Op: "sync"}, {Who: 0, Op: "sync"}}}, 3},
 	{findingSpanOrder, Case{N: 2, Steps: []prog.Step{{Who: 0, Op: "tedit", C: 2}, {Who: 0, Op: "tedit", C: 1}, {Who: 0, Op: "tedit", B: 3}, {Who: 0, Op: "undo"}}}, 200},
 }
 
